@@ -40,6 +40,7 @@ typedef struct SimKnobs {
     int short_write_pm;   /* per-mille: write accepts fewer bytes than it could */
     int eintr_pm;         /* per-mille: read/write fails with EINTR first */
     int zombie_delay_us;  /* max delay between fd close at death and waitpid visibility */
+    int stack_mode;       /* 0 = stacks as the host gives them; v>0 = new stacks pre-filled with byte v-1 and the dead stack below the running frame overwritten with it after returns */
     int malloc_junk;      /* 0 off, else fill byte seed for allocator seam */
     uint64_t max_steps;   /* scheduling step budget for the run */
     uint64_t max_blocks;  /* basic-block budget for the run (fuel) */
